@@ -80,10 +80,10 @@ def facts(repo="/repo", verbose=False):
         info = {"units": len(files), "produced": produced, "errors": errs, "source_files_hashed": nfiles,
                 "tree_hash": hx, "extract_s": round(time.time() - t0, 2), "cached": False}
         json.dump(info, open(os.path.join(work, "info.json"), "w"))
-        # keep at most 3 cache entries
+        # keep at most 8 cache entries (checks of different trees may run side by side)
         old = sorted((os.path.getmtime(os.path.join(cache, d)), d) for d in os.listdir(cache)
                      if os.path.isdir(os.path.join(cache, d)) and not d.startswith("mptsa-facts-"))
-        for _, d in old[:-2]:
+        for _, d in old[:-7]:
             shutil.rmtree(os.path.join(cache, d), ignore_errors=True)
         if os.path.exists(dest):
             shutil.rmtree(dest, ignore_errors=True)
